@@ -139,7 +139,20 @@ fn directed_patterns(rng: &mut Rng) -> Vec<RefPattern> {
     let n = rng.range(1, 4);
     (0..n)
         .map(|i| RefPattern {
-            re: if rng.chance(1, 3) { Re::Raw(raw_pool[rng.below(raw_pool.len())].to_string()) } else { parse_to_ir(pool[rng.below(pool.len())]).unwrap() },
+            re: if rng.chance(1, 3) {
+                if rng.chance(1, 2) {
+                    Re::Raw(raw_pool[rng.below(raw_pool.len())].to_string())
+                } else {
+                    // 1-3 atoms whose source text contains what a DOT string treats specially, in a row
+                    // or inside one bracket (valid by construction)
+                    let atoms = ["\\\"", "\\\\", "\"", "\\n", "\\t", "\\{", "\\}", "<", ">", "\\|", "\\[", "\\]", "'", ";", "\\&", "%", "#", "\\x5c", "\\u{22}", "\\-", "\\.", "\\x22", "l", "N", "G"];
+                    let k = rng.range(1, 3);
+                    let body: String = (0..k).map(|_| atoms[rng.below(atoms.len())]).collect();
+                    Re::Raw(if rng.chance(1, 2) { format!("[{}]", body) } else { body })
+                }
+            } else {
+                parse_to_ir(pool[rng.below(pool.len())]).unwrap()
+            },
             tt: i * 3 + 1,
             la: if rng.chance(1, 3) { Some((rng.chance(1, 2), parse_to_ir(pool[rng.below(pool.len())]).unwrap())) } else { None },
         })
